@@ -26,7 +26,7 @@ Conv(e) ==
   [id |-> e.id, cfg |-> e.cfg,
    out |-> [err |-> e.out.err, freq |-> Slots(e.out.freq), eigvec |-> Slots(e.out.eigvec),
             dm |-> Slots(e.out.dm), gv |-> Slots(e.out.gv), gc |-> e.out.gc,
-            diag |-> e.out.diag, iter |-> e.out.iter, permok |-> e.out.permok],
+            diag |-> e.out.diag, iter |-> e.out.iter, permok |-> e.out.permok, bulk |-> e.out.bulk],
    files |-> SetOf(e.files)]
 Events == LET raw == ndJsonDeserialize(EventFile) IN {Conv(raw[k]) : k \in DOMAIN raw}
 
@@ -61,10 +61,11 @@ ImplDiagNumeric == First => ev.out.diag # "bad"
 ImplIterSame    == First => ev.out.iter # "bad"
 ImplPermutation == First => ev.out.permok # "bad"
 ImplFiles       == First => \A f \in ev.files : ReqFile(ev.cfg, f)
+ImplBulk        == First => ReqBulk(ev.cfg, ev.out)
 
 FailedReqs ==
   {n \in {"NoError", "Freq", "Eigvec", "Dynmat", "GV", "Grid", "Diag", "SameOrder",
-          "DiagNumeric", "IterSame", "Permutation", "Files"} :
+          "DiagNumeric", "IterSame", "Permutation", "Files", "Bulk"} :
      ~ CASE n = "NoError" -> ReqNoError(ev.cfg, ev.out)
          [] n = "Freq" -> ReqFreq(ev.cfg, ev.out)
          [] n = "Eigvec" -> ReqEigvec(ev.cfg, ev.out)
@@ -76,7 +77,8 @@ FailedReqs ==
          [] n = "DiagNumeric" -> ev.out.diag # "bad"
          [] n = "IterSame" -> ev.out.iter # "bad"
          [] n = "Permutation" -> ev.out.permok # "bad"
-         [] n = "Files" -> \A f \in ev.files : ReqFile(ev.cfg, f)}
+         [] n = "Files" -> \A f \in ev.files : ReqFile(ev.cfg, f)
+         [] n = "Bulk" -> ReqBulk(ev.cfg, ev.out)}
 ReportReq == First => PrintT(ToString(<<"Q", ev.id, FailedReqs>>))
 
 (* conformance of the logged observation with the machine's *)
